@@ -50,3 +50,32 @@ Example C16_example :
   map c_wants (fst (post_add ex_groups ex_rules 1 7 ex_copies [])) = [WY; WY; WN; WY] /\
   snd (post_add ex_groups ex_rules 1 7 ex_copies []) = [].
 Proof. exact example_post_add. Qed.
+
+(* ---- "exactly as configured": how the rule table comes about (Model/Rules.v: `group autosync` / `node autoclean`, with --remove) ---- *)
+From Alp Require Model.Rules Proofs.RulesProofs.
+(* one command leaves every flag it does not name --- the other flag of the same rule, and both flags of every other (node, group)
+   pair, in particular the same node's rules towards other groups --- exactly as it was *)
+Theorem C16_configuring_one_rule_leaves_the_others : forall group_of t c f n g,
+  RulesProofs.same_target c f n g = false -> Rules.eff f n g (fst (Rules.step group_of t c)) = Rules.eff f n g t.
+Proof. exact RulesProofs.step_frame. Qed.
+Print Assumptions C16_configuring_one_rule_leaves_the_others.
+Theorem C16_unaddressed_flags_keep_their_value : forall group_of cs t f n g,
+  forallb (fun c => negb (RulesProofs.same_target c f n g)) cs = true -> Rules.eff f n g (Rules.run group_of cs t) = Rules.eff f n g t.
+Proof. exact RulesProofs.run_frame. Qed.
+Print Assumptions C16_unaddressed_flags_keep_their_value.
+(* an accepted command sets the flag it names; a refused one (switching on a rule from a node into its own group) changes nothing *)
+Theorem C16_accepted_command_takes_effect : forall group_of t c,
+  snd (Rules.step group_of t c) <> Rules.Refused -> Rules.eff (Rules.c_flag c) (Rules.c_node c) (Rules.c_group c) (fst (Rules.step group_of t c)) = Rules.c_enable c.
+Proof. exact RulesProofs.step_own. Qed.
+Print Assumptions C16_accepted_command_takes_effect.
+Theorem C16_refused_command_changes_nothing : forall group_of t c, snd (Rules.step group_of t c) = Rules.Refused ->
+  fst (Rules.step group_of t c) = t /\ Rules.c_enable c = true /\ group_of (Rules.c_node c) = Rules.c_group c.
+Proof. exact RulesProofs.step_refused. Qed.
+Print Assumptions C16_refused_command_changes_nothing.
+Example C16_rules_example :
+  let go := fun n : N => n in
+  let cs := [ {| Rules.c_flag := Rules.FSync; Rules.c_node := 1; Rules.c_group := 2; Rules.c_enable := true |};
+              {| Rules.c_flag := Rules.FSync; Rules.c_node := 1; Rules.c_group := 3; Rules.c_enable := true |};
+              {| Rules.c_flag := Rules.FClean; Rules.c_node := 1; Rules.c_group := 3; Rules.c_enable := true |} ]%N in
+  Rules.eff Rules.FClean 1 2 (Rules.run go cs []) = false /\ Rules.eff Rules.FClean 1 3 (Rules.run go cs []) = true /\ Rules.eff Rules.FSync 1 2 (Rules.run go cs []) = true.
+Proof. vm_compute. repeat split. Qed.
